@@ -14,6 +14,8 @@
 //	rejvotes <id> <amount>                      environment: public reject votes on the proposal
 //	track <id> <p|t|f|c|r> <stage>              CRCProposalTracking Progress/Terminated/Finalized/Common/Rejected, real check
 //	withdraw <id> <amount>                      CRCProposalWithdraw (payload v1), real check
+//	close <id> <target>                         CRCProposal of type CloseProposal, real check
+//	chg                                         a committee change recomputes the used amount at the end of this block (hook)
 //	fund <v>                                    environment: payment to the CR expenses address (committee UTXO)
 //	withdraw0 <id> <inp> <out0> <out1|-> <toC> <utxos>   CRCProposalWithdraw payload v0 spending committee UTXOs, real check
 //	end [order]                                 Committee.ProcessBlock; prints committee + every proposal; order = processing
@@ -120,6 +122,7 @@ type world struct {
 	wtx     map[common.Uint256]int // withdraw tx hash -> proposal id
 	cutxos  []*cutxo               // UTXOs of the CR expenses (committee) address
 	cIn     map[int]bool           // committee utxos used as inputs in the open block
+	chg     bool                   // recompute the used amount (committee change) at the end of the open block
 }
 
 var w *world
@@ -224,6 +227,8 @@ func errClass(e error) string {
 		{"cannot be without a Budget", "shape"},
 		{"duplicated draft", "dup"},
 		{"proposal not exist", "noprop"},
+		{"CloseProposalHash does not exist", "noprop"},
+		{"CloseProposalHash has to be voterAgreed", "status"},
 		{"proposal status is not VoterAgreed", "status"},
 		{"reached max tracking count", "maxtrack"},
 		{"invalid tracking Stage", "stage"},
@@ -360,6 +365,10 @@ func exec(t []string) string {
 		for id := range w.cIn {
 			w.cutxos[id].spent = true
 		}
+		if w.chg { // what a successful committee change does to the used amount (changeCommittee -> resetCRCCommitteeUsedAmount)
+			w.cm.VerifResetCommitteeUsedAmount(w.height)
+			w.chg = false
+		}
 		return w.dump()
 	}
 	if !w.inBlock {
@@ -447,6 +456,36 @@ func exec(t []string) string {
 		v := verdict(tx)
 		if v == "accept" {
 			w.pending = append(w.pending, tx)
+		}
+		return v
+	case "chg":
+		w.chg = true
+		return "queued"
+	case "close": // close <id> <target>: CRCProposal of type CloseProposal, real context check
+		id := int(i64(t[1]))
+		if _, dup := w.props[id]; dup {
+			panic("harness: proposal id reused")
+		}
+		tg, ok := w.props[int(i64(t[2]))]
+		if !ok {
+			return "reject noprop"
+		}
+		m := w.members[0]
+		draft := []byte(fmt.Sprintf("draft-%d", id))
+		pl := &payload.CRCProposal{ProposalType: payload.CloseProposal, CategoryData: "c", OwnerKey: w.owner.pk, DraftData: draft,
+			DraftHash: common.Hash(draft), TargetProposalHash: tg.hash, CRCouncilMemberDID: m.did()}
+		pv := payload.CRCProposalVersion01
+		buf := new(bytes.Buffer)
+		pl.SerializeUnsigned(buf, pv)
+		pl.Signature = w.owner.sign(buf.Bytes())
+		common.WriteVarBytes(buf, pl.Signature)
+		pl.CRCouncilMemberDID.Serialize(buf)
+		pl.CRCouncilMemberSignature = m.sign(buf.Bytes())
+		tx := w.mk(ctypes.CRCProposal, pv, pl, nil)
+		v := verdict(tx)
+		if v == "accept" {
+			w.pending = append(w.pending, tx)
+			w.props[id] = &prop{id: id, hash: pl.Hash(pv)}
 		}
 		return v
 	case "fund": // environment: someone pays the CR expenses address (a committee UTXO appears)
